@@ -38,6 +38,10 @@ def queries(tier):
             for c in range(1, bl + 1):
                 qs.append(tq(tr, 4, {"BL": bl, "NCUT": c}, "rx-body-b%d-cut%d" % (bl, c), {"step": "receive: payload in two pieces", "body": bl, "first_read": c}))
         qs.append(tq(tr, 5, {}, "nego", {"step": "handshake: any 8 bytes, any split"}))
+        for mode, mn in ((6, "tx"), (7, "rx")):
+            for wc in (0, 1):
+                qs.append(tq(tr, mode, {"WHICHC": wc}, "%s-cancel-%s" % (mn, "inprogress" if wc == 0 else "queued"),
+                             {"step": "cancel a %s that is %s" % ("send" if mode == 6 else "receive", "in progress" if wc == 0 else "queued behind another")}))
     for nio in (1, 2, 3):
         qs.append(Query("iov-advance-nio%d" % nio, "c01/iov.c", tus=["core/list.c"], env=["env_alloc.c", "env_misc.c", "env_sync.c"], defs={"NIO": nio},
                         unwind=12, timeout=300, params={"kernel": "real nni_aio_iov_advance/iov_count", "segments": nio}))
